@@ -391,6 +391,7 @@ def tv_run(work, h_src, tv_funcs, ev, defs=(), nvec=300, pre_inc=(), noinline=Fa
     return True
 
 # ------------------------------------------------------------------ Engine B harness runner
+_B_HS = []
 class BHarness:
     """one symbolic-execution harness: entry `entry` (void(void), nondet_* inputs, __CPROVER_assume, __verif_check) in TU `src`"""
     def __init__(s, name, src, entry, defs=(), noinline=False, inline_all=False, tie_free=False, monotone=False, exact_add=False, stubs=None, maxpaths=20000, maxsteps=400000,
@@ -400,7 +401,8 @@ class BHarness:
 
 def _b_worker(args):
     import irz, z3, random
-    ll, h, initial_work, seeding = args
+    ll, hidx, initial_work, seeding = args
+    h = _B_HS[hidx]            # harness objects (with hooks/closures) are inherited through fork, never pickled
     t0 = time.time()
     out = {'name': h.name, 'paths': 0, 'obl': 0, 'discharged': 0, 'unknown': 0, 'candidates': [], 'aborted': 0, 'loopbound': 0, 'queries': 0, 'solver_s': 0.0, 'samples': [],
            'ties_excluded': 0, 'side_conditions': {}, 'functions': [], 'error': None, 'errors_reached': 0, 'tiny_sites': 0, 'exact_obl': 0}
@@ -469,8 +471,10 @@ def run_engine_b(pid, tier, harnesses, ev, work, known_match=None, custom_replay
     lls = [lower(work, h) for h in hs]
     workers = workers or min(max(len(hs), max(h.split for h in hs) * 2), os.cpu_count() or 4)
     ctx = mp.get_context('fork')
+    global _B_HS
+    _B_HS = hs
     with ctx.Pool(workers) as pool:
-        outs = pool.map(_b_worker, [(ll, h, None, h.split > 1) for ll, h in zip(lls, hs)], chunksize=1)
+        outs = pool.map(_b_worker, [(ll, k, None, h.split > 1) for k, (ll, h) in enumerate(zip(lls, hs))], chunksize=1)
         # second phase: harnesses whose seeding phase left unexplored prefixes are fanned out over the pool
         tasks = []
         for k, (h, o) in enumerate(zip(hs, outs)):
@@ -478,7 +482,7 @@ def run_engine_b(pid, tier, harnesses, ev, work, known_match=None, custom_replay
             if rem and not o['error']:
                 for j in range(h.split * 6):
                     chunk = rem[j::h.split * 6]
-                    if chunk: tasks.append((k, (lls[k], h, chunk, False)))
+                    if chunk: tasks.append((k, (lls[k], k, chunk, False)))
         if tasks:
             res2 = pool.map(_b_worker, [t for _, t in tasks], chunksize=1)
             for (k, _), o2 in zip(tasks, res2):
